@@ -1,5 +1,5 @@
 # replay of a bounded stand-in violation: re-run native/c01_backends.py
 import sys
-print('fock: Fock(3) | q[1], LossChannel(0.3) at cutoff 4: trace = 0.657000 although nothing is truncated')
+print('MeasureHeterodyne(0.2, -0.3) | q[2] of 3 on gaussian: Gaussian state violates the uncertainty relation (min eigenvalue of V + i hbar/2 Omega = -0.00254)')
 print('REPLAY-VIOLATION')
 sys.exit(1)
